@@ -222,6 +222,15 @@ class Env:
                 raise Abort("assignment of another data type", "C14", [path, node["type"], typ])
             if st.get("declare"):
                 raise Unspecified("re-declaration of an existing node")
+            if (st.get("dims") is None) != (node["dims"] is None) or (
+                    st.get("dims") is not None and len(st["dims"]) != len(node["dims"])):
+                raise Unspecified("typed modification changing the number of dimensions")
+            if st.get("dims") is not None:
+                for (lo, hi), (nlo, nhi) in zip(st["dims"], node["dims"]):
+                    looser = (lo is None or (nlo is not None and lo <= nlo)) and \
+                             (hi is None or (nhi is not None and hi >= nhi))
+                    if not looser:
+                        raise Unspecified("typed modification restating tighter bounds")
             self._assign(node, st["value"], st.get("unit"), st)
             return path
         if st.get("unit") is not None and typ in ("bool", "str"):
@@ -460,13 +469,33 @@ class Env:
 
     def import_nodes(self, st):
         """[name] {ref}: re-create the selected nodes below the importing position."""
-        sel = self.resolve(st["ref"])
+        # the selection is taken as the nodes are at this statement
+        sel = [(rel, copy.deepcopy(n)) for rel, n in self.resolve(st["ref"])]
         made = []
         for rel, rnode in sel:
             name = (st["name"] + "." + rel) if st.get("name") else rel
             path = self.register(st["indent"], name)
             if path in self.nodes:
-                raise Unspecified("import collides with an existing path")
+                # a node of that path exists: the imported node acts as an assignment to it
+                host = self.nodes[path]
+                if host["type"] != rnode["type"]:
+                    raise Abort("assignment of another data type", "C14", path)
+                if host["constant"]:
+                    raise Abort("assignment to a constant node", "C14", path)
+                if (host["dims"] is None) != (rnode["dims"] is None) or \
+                        rnode["value"] is None or not rnode["has_value"]:
+                    raise Unspecified("import onto an existing node of another shape / none")
+                v = copy.deepcopy(rnode["value"])
+                if host["type"] in ("int", "float"):
+                    v = self.convert(v, rnode["unit"], host["unit"], path)
+                    if host["type"] == "int" and not all_integral(v):
+                        raise Unspecified("integer node converted by a non-integer factor")
+                check_dims(host, v)
+                host["value"] = v
+                host["has_value"] = True
+                host["modified"] = True
+                made.append(path)
+                continue
             node = copy.deepcopy(rnode)
             node["path"] = path
             node["modified"] = False
@@ -571,6 +600,11 @@ def eval_condition(env, node, value, margin=0.0):
             if unit is not None and node["unit"] is not None and unit != node["unit"]:
                 rhs = rhs * env.units.factor(unit) / env.units.factor(node["unit"])
             lhs = float(value)
+            if node["type"] == "int" and abs(rhs - round(rhs)) > 1e-9 * max(1.0, abs(rhs)):
+                # an integer node against a bound that is not integral in its unit: only
+                # '>' and '<=' (positive bound) do not depend on how the bound is rounded
+                if op not in (">", "<=") or rhs <= 0:
+                    return None
             scale = max(abs(lhs), abs(rhs), 1e-300)
             if lhs != rhs and abs(lhs - rhs) <= 1e-12 * scale:
                 # the same number up to the rounding of a unit conversion (generated values
